@@ -332,6 +332,19 @@ def _compare(interp, sym, a, b):
     if sym == '==':
         if isinstance(a, K) and isinstance(b, K):
             return K(a.v == b.v)
+        for x, y in ((a, b), (b, a)):
+            # x == b'' (x == '') on a value known to be bytes (str) is the
+            # same question as ``not x``: asked in one form only, so that a
+            # scenario's answer to one is its answer to the other
+            if isinstance(y, K) and isinstance(y.v, (bytes, str)) and \
+                    len(y.v) == 0 and isinstance(x, T):
+                tag = interp.types.get(x) or interp.path_types.get(x) or (
+                    'bytes' if x.op == 'bytes' else None)
+                if tag == ('bytes' if isinstance(y.v, bytes) else 'str'):
+                    known = interp.truth_known(x)
+                    if known is not None:
+                        return K(not known)
+                    return T('not', x)
         if isinstance(a, Method) or isinstance(b, Method):
             # a bound method never equals a constant
             if isinstance(a, K) or isinstance(b, K):
@@ -842,7 +855,8 @@ def get_attr_external(interp, base, name, missing_ok=False):
     raise Inexact('attribute %s of %s' % (name, type(base).__name__))
 
 
-_FOLD_MODULES = ('re', 'errno', 'os', 'stat', 'socket')
+_FOLD_MODULES = ('re', 'errno', 'os', 'stat', 'socket', 'io', 'signal',
+                 'select', 'fcntl', 'mmap', 'struct', 'math')
 
 
 def fold_ext_attr(mod, name):
@@ -933,6 +947,33 @@ def call_external(interp, f, args, kwargs):
         from .absint import BUILTIN_EXC
         if f.name in BUILTIN_EXC:
             return T('exc', f.name, *[interp.termify(a) for a in args])
+        owner, _, meth = f.name.partition('.')
+        if owner in ('str', 'bytes', 'list', 'dict', 'set', 'tuple',
+                     'frozenset') and meth and '.' not in meth and args \
+                and (owner, meth) not in (('dict', 'fromkeys'),
+                                          ('str', 'maketrans'),
+                                          ('bytes', 'maketrans'),
+                                          ('bytes', 'fromhex'),
+                                          ('int', 'from_bytes')):
+            # the method of a builtin type called through the type:
+            # str.strip(x) is x.strip() for an x of that type
+            tag = interp.types.get(args[0]) if isinstance(args[0], T) else \
+                None
+            ok = {'str': isinstance(args[0], K) and isinstance(
+                      args[0].v, str) or tag == 'str',
+                  'bytes': isinstance(args[0], K) and isinstance(
+                      args[0].v, bytes) or tag == 'bytes' or (
+                          isinstance(args[0], T) and args[0].op == 'bytes'),
+                  'list': isinstance(args[0], ListV),
+                  'dict': isinstance(args[0], DictV),
+                  'set': isinstance(args[0], SetV),
+                  'frozenset': isinstance(args[0], SetV),
+                  'tuple': isinstance(args[0], TupleV) or (
+                      isinstance(args[0], K) and isinstance(args[0].v,
+                                                            tuple))}[owner]
+            if ok:
+                return interp.call(interp.get_attr(args[0], meth),
+                                   list(args[1:]), kwargs)
         return interp.opaque_call(f.name, f, args, kwargs)
     if isinstance(f, T):
         if f.op == 'attr' and len(f.args) == 2:
@@ -1828,9 +1869,9 @@ def b_iter(interp, args, kwargs):
             items.append(v)
         raise Inexact('iter(callable, sentinel) did not reach the sentinel')
     if len(args) == 2:
-        # iter(callable, sentinel): one symbolic call shows what is produced
-        produced = interp.call(args[0], [])
-        return T('iter2', interp.termify(produced), interp.termify(args[1]))
+        # iter(callable, sentinel): called lazily by the consuming loop
+        from .absint import Iter2V
+        return Iter2V(args[0], args[1])
     if isinstance(args[0], (ListV, TupleV)):
         return args[0]
     return T('call', 'iter', interp.termify(args[0]))
@@ -1906,6 +1947,42 @@ def b_struct_unpack_from(interp, args, kwargs):
     return struct_unpack(interp, fmt, piece)
 
 
+def b_struct_iter_unpack(interp, args, kwargs):
+    """struct.iter_unpack(fmt, buffer): the records of a buffer whose length
+    is known (constant, or evaluated on the input being followed)."""
+    fmt, data = args[0], args[1]
+    if not isinstance(fmt, K):
+        return NotImplemented
+    try:
+        size = _struct.calcsize(fmt.v)
+    except _struct.error as e:
+        raise py_exc(interp, e)
+    if isinstance(data, K) and isinstance(data.v, bytes):
+        try:
+            return from_python(list(_struct.iter_unpack(fmt.v, data.v)))
+        except _struct.error as e:
+            raise py_exc(interp, e)
+    n = bytes_len(interp, data) if isinstance(data, T) and \
+        data.op == 'bytes' else None
+    if n is None and interp.guide is not None and isinstance(data, T):
+        from .termeval import CannotEval, Raised
+        try:
+            n = len(interp.guide(data))
+        except (CannotEval, Raised):
+            n = None
+    if n is None:
+        raise Inexact('iter_unpack of a buffer of unknown length')
+    if size == 0 or n % size:
+        raise AbsRaise(T('exc', 'struct.error', 'iterative unpacking '
+                         'requires a buffer of a multiple of %d bytes' %
+                         size))
+    if n // size > 4096:
+        raise Inexact('iter_unpack of %d records' % (n // size))
+    return ListV([struct_unpack(interp, fmt, slice_(
+        interp, data, K(i * size), K((i + 1) * size), K(None)))
+        for i in range(n // size)])
+
+
 def b_uuid_UUID(interp, args, kwargs):
     """uuid.UUID(constant): the value object itself (immutable)."""
     import uuid as _uuid
@@ -1932,6 +2009,9 @@ def b_struct_Struct(interp, args, kwargs):
                                  struct_unpack(i, fmt, a[0]))
     o.fields['unpack_from'] = AbsFunc(
         'Struct.unpack_from', lambda i, a, k: b_struct_unpack_from(
+            i, [fmt] + list(a), k))
+    o.fields['iter_unpack'] = AbsFunc(
+        'Struct.iter_unpack', lambda i, a, k: b_struct_iter_unpack(
             i, [fmt] + list(a), k))
     return o
 
@@ -2090,6 +2170,12 @@ def b_exc_info(interp, args, kwargs):
     cls = interp.exc_class_of(exc)
     return TupleV([cls if cls is not None else T('type', exc), exc,
                    T('tb', interp.termify(exc))])
+
+
+def b_sys_exception(interp, args, kwargs):
+    """sys.exception(): the exception being handled, or None."""
+    exc = interp.current_exception()
+    return K(None) if exc is None else exc
 
 
 def b_parse_qsl(interp, args, kwargs):
@@ -2382,6 +2468,7 @@ BUILTINS = {
     'contextlib.suppress': b_suppress,
     'struct.unpack': b_struct_unpack, 'struct.calcsize': b_struct_calcsize,
     'struct.unpack_from': b_struct_unpack_from,
+    'struct.iter_unpack': b_struct_iter_unpack,
     'struct.Struct': b_struct_Struct, 'uuid.UUID': b_uuid_UUID,
     're.compile': b_re_compile,
     'bin': b_pure('bin'), 'hex': b_pure('hex'), 'ord': b_pure('ord'),
@@ -2390,7 +2477,7 @@ BUILTINS = {
     'functools.reduce': b_reduce, 'functools.partial': b_partial,
     'collections.namedtuple': b_namedtuple,
     'functools.wraps': b_wraps, 'divmod': b_divmod,
-    'sys.exc_info': b_exc_info, 'format': b_format,
+    'sys.exc_info': b_exc_info, 'sys.exception': b_sys_exception, 'format': b_format,
     're.escape': b_pure_ext('re.escape'),
     'str.maketrans': b_maketrans(str), 'bytes.maketrans': b_maketrans(bytes),
     'math.floor': b_pure_ext('math.floor'),
